@@ -145,7 +145,7 @@ impl Check for C04 {
             v.fail(d);
             return v;
         }
-        if let (End::FinalizeXml(_), Some(x)) = (&p.end, &tr.xml_out) {
+        if let (End::FinalizeXml(_) | End::FinalizeMinified { .. }, Some(x)) = (&p.end, &tr.xml_out) {
             v.label("xml_transformer");
             if *x != xml {
                 v.fail("E57Reader::xml() differs from the XML the transformer returned");
